@@ -30,7 +30,11 @@ Curated == {
   (* a relation without members is pulled in by a selected relation that comes later in the file; a relation before it
      becomes selected (bounds) only once the empty one is kept *)
   D(<<N(1), R(3), R(2), R(1)>>, << <<R(1), <<N(1), R(2)>>>>, <<R(2), <<>>>>, <<R(3), <<R(2)>>>> >>, {N(1)}, {R(1)}),
-  D(<<N(1), R(2), R(3), R(1)>>, << <<R(1), <<N(1), R(2)>>>>, <<R(2), <<>>>>, <<R(3), <<R(2)>>>> >>, {N(1)}, {R(1)})
+  D(<<N(1), R(2), R(3), R(1)>>, << <<R(1), <<N(1), R(2)>>>>, <<R(2), <<>>>>, <<R(3), <<R(2)>>>> >>, {N(1)}, {R(1)}),
+  (* a way without node references: selected by its tag, and pulled in as a member of a selected relation *)
+  D(<<N(1), Wy(1)>>, << <<Wy(1), <<>>>> >>, {N(1)}, {Wy(1)}),
+  D(<<N(1), Wy(1), R(1)>>, << <<Wy(1), <<>>>>, <<R(1), <<Wy(1), N(1)>>>> >>, {N(1)}, {R(1)}),
+  D(<<R(1), N(1), Wy(1)>>, << <<Wy(1), <<>>>>, <<R(1), <<N(1), Wy(1)>>>> >>, {}, {R(1)})
 }
 
 (* enumerated family: nodes n1 n2, way w1 with 1-2 node members, relation r1 with 1-2 members out of
